@@ -100,7 +100,7 @@ def _one(run, c, expect_ok, st):
         e = EdgeOdometry(vids, inf, est)
     else:
         e = EdgeLandmark(vids, inf, est, value_of(c['off'], 0.25), offset_id=0)
-    key = dict(cls=c['cls'], nv=nv, kinds=tuple(c['kinds']), est=c['est'], off=c['off'], info=tuple(c['info']), present=tuple(c['present']))
+    key = dict(cls=c['cls'], nv=nv, kinds=tuple(c['kinds']), est=c['est'], off=c['off'], info=tuple(c['info']), present=tuple(c['present']), ids=c['ids'], dup=c['dup'])
     # History dimension: every other configuration re-uses an edge object that is ALREADY bound to the vertex objects of an earlier
     # graph (same ids, different objects - also for ids the new vertex list lacks).  Construction must re-bind it to the listed vertices.
     prebound = run.replayed % 2 == 1
@@ -115,7 +115,7 @@ def _one(run, c, expect_ok, st):
     except Exception as ex:  # noqa
         raised = ex
     run.replayed += 1
-    run.count(key=(c['cls'], nv, tuple(c['kinds']), c['est'], c['off'], tuple(c['info']), tuple(c['present']), c['perm']))
+    run.count(key=(c['cls'], nv, tuple(c['kinds']), c['est'], c['off'], tuple(c['info']), tuple(c['present']), c['perm'], c['ids'], c['dup']))
     if expect_ok and raised is not None:
         run.violation(dict(key, verdict='wrong-reject'), 'consistent edge rejected with %r | config %r' % (raised, c), dict(config=c))
     elif not expect_ok and raised is None:
